@@ -654,185 +654,7 @@ func c07(c *Ctx) {
 		c.Check(bad == "" && n >= 2, "R8", "aggregate|(*expoHistogramDataPoint).scaleChange|window arithmetic in 64 bits", at(ax.M, fn.Pos()), itoa(n)+" additions/subtractions, all 64-bit",
 			"the distance between two bins can exceed 2^31 (scale 20: a near-maximal and a subnormal value of one sign): "+bad+" wraps, scaleChange answers 0 and the bucket window is grown instead of down-scaled (panic / far more than MaxSize buckets)")
 	}
-	if fn := c.Fn(ax, "R8", "(*expoBuckets).record"); fn != nil {
-		g := ax.FG(fn)
-		fCounts := lookupField(ax.Pkg, "expoBuckets", "counts")
-		isCounts := func(e ast.Expr) bool { return isField(info, e, fCounts) }
-		// growth inside capacity: counts = counts[:E] (no low bound) — everything else allocates zeroed memory
-		grows := g.Match(func(n ast.Node) bool {
-			r := assignRHS(n, isCounts)
-			if r == nil {
-				return false
-			}
-			se, ok := unparen(r).(*ast.SliceExpr)
-			return ok && isCounts(se.X) && se.Low == nil && se.High != nil
-		})
-		zeroes := toSet(g.Match(func(n ast.Node) bool {
-			switch s := n.(type) {
-			case *ast.AssignStmt:
-				if len(s.Lhs) == 1 && len(s.Rhs) == 1 {
-					if ie, ok := unparen(s.Lhs[0]).(*ast.IndexExpr); ok && isCounts(ie.X) && g.InCycle(g.NodeOf(s)) {
-						if v, isC := constInt(info, s.Rhs[0]); isC && v == 0 {
-							return true
-						}
-					}
-				}
-			case *ast.CallExpr:
-				if builtinName(info, s) == "clear" && len(s.Args) == 1 {
-					if se, ok := unparen(s.Args[0]).(*ast.SliceExpr); ok && isCounts(se.X) {
-						return true
-					}
-				}
-			}
-			return false
-		}))
-		for _, x := range grows {
-			// a zeroing construct (element stores of 0 in a loop, or clear of a sub-slice) can follow before the function returns
-			after, _ := g.Reach([]*GNode{x}, nil, nil)
-			has := false
-			for z := range zeroes {
-				if after[z] {
-					has = true
-				}
-			}
-			c.Check(has, "R8", "aggregate|(*expoBuckets).record|window grown within capacity ("+exprStr(assignRHS(x.N, isCounts))+") is zeroed", at(ax.M, x.N.Pos()), "re-slice followed by a zeroing loop/clear",
-				"the window is re-sliced into spare capacity without zeroing the exposed slots: counts left behind by an earlier down-scale reappear (bucket counts sum to more than Count)")
-		}
-		// extent of the zeroing on the prepend side: the old counts are moved up by S (copy into counts[S:…]); whatever zeroes the
-		// gap must run up to that same S — a smaller bound (the old length, a min of the two) leaves slots of the spare capacity
-		// between the old length and S as they were
-		sameLin := func(a, b ast.Expr) bool {
-			expand := func(e ast.Expr) ast.Expr {
-				if id, ok := unparen(e).(*ast.Ident); ok {
-					if d := g.LocalDef(info.Uses[id]); d != nil {
-						if _, isCall := unparen(d).(*ast.CallExpr); isCall || true {
-							ta, ka := linearForm(info, d)
-							if len(ta) > 0 || ka != 0 {
-								return d
-							}
-						}
-					}
-				}
-				return e
-			}
-			eq := func(x, y ast.Expr) bool {
-				tx, kx := linearForm(info, x)
-				ty, ky := linearForm(info, y)
-				if kx != ky || len(tx) != len(ty) {
-					return false
-				}
-				for k, v := range tx {
-					if ty[k] != v {
-						return false
-					}
-				}
-				return true
-			}
-			return eq(a, b) || eq(expand(a), expand(b)) || eq(expand(a), b) || eq(a, expand(b))
-		}
-		var shiftLow []ast.Expr
-		inspectNoLit(fn.Body(), func(n ast.Node) bool {
-			if call, ok := n.(*ast.CallExpr); ok && builtinName(info, call) == "copy" && len(call.Args) == 2 {
-				if se, ok := unparen(call.Args[0]).(*ast.SliceExpr); ok && isCounts(se.X) && se.Low != nil {
-					if v, isC := constInt(info, se.Low); !isC || v != 0 {
-						shiftLow = append(shiftLow, se.Low)
-					}
-				}
-			}
-			return true
-		})
-		for _, S := range shiftLow {
-			// zeroing constructs in the same block as the copy
-			var blk *ast.BlockStmt
-			ast.Inspect(fn.Body(), func(n ast.Node) bool {
-				switch b := n.(type) {
-				case *ast.BlockStmt:
-					for _, st := range b.List {
-						if containsNoLit(st, S) {
-							if _, nested := st.(*ast.BlockStmt); !nested {
-								blk = b
-							}
-						}
-					}
-				case *ast.CaseClause:
-					for _, st := range b.Body {
-						if containsNoLit(st, S) {
-							blk = &ast.BlockStmt{List: b.Body}
-						}
-					}
-				}
-				return true
-			})
-			if blk == nil {
-				continue
-			}
-			nz, bad := 0, ""
-			for _, st := range blk.List {
-				switch x := st.(type) {
-				case *ast.ForStmt:
-					// for i := k; i < U; i++ { counts[i] = 0 }
-					zeroing := false
-					inspectNoLit(x.Body, func(n ast.Node) bool {
-						if as, ok := n.(*ast.AssignStmt); ok && len(as.Lhs) == 1 && len(as.Rhs) == 1 {
-							if ie, ok := unparen(as.Lhs[0]).(*ast.IndexExpr); ok && isCounts(ie.X) {
-								if v, isC := constInt(info, as.Rhs[0]); isC && v == 0 {
-									zeroing = true
-								}
-							}
-						}
-						return true
-					})
-					if !zeroing {
-						continue
-					}
-					nz++
-					be, ok := unparen(x.Cond).(*ast.BinaryExpr)
-					if !ok {
-						bad = "loop condition " + exprStr(x.Cond)
-						continue
-					}
-					l, op, r, good := cmpNorm(be, 1)
-					_ = l
-					switch {
-					case good && op == token.LSS && sameLin(r, S):
-					case good && op == token.LEQ && sameLin(&ast.BinaryExpr{X: r, Op: token.ADD, Y: &ast.BasicLit{Kind: token.INT, Value: "1"}}, S):
-					default:
-						bad = "the zeroing loop runs while " + exprStr(x.Cond) + ", the counts were moved up by " + exprStr(S)
-					}
-				case *ast.ExprStmt:
-					call, ok := x.X.(*ast.CallExpr)
-					if !ok || builtinName(info, call) != "clear" || len(call.Args) != 1 {
-						continue
-					}
-					se, ok := unparen(call.Args[0]).(*ast.SliceExpr)
-					if !ok || !isCounts(se.X) {
-						continue
-					}
-					nz++
-					if se.Low != nil {
-						if v, isC := constInt(info, se.Low); !isC || v > 1 {
-							bad = "clear starts at " + exprStr(se.Low)
-						}
-					}
-					if se.High == nil || !sameLin(se.High, S) {
-						hi := "the end"
-						if se.High != nil {
-							hi = exprStr(se.High)
-						}
-						bad = "clear runs up to " + hi + ", the counts were moved up by " + exprStr(S)
-					}
-				}
-			}
-			if nz == 0 {
-				continue // reported by the obligation above
-			}
-			c.Check(bad == "", "R8", "aggregate|(*expoBuckets).record|gap in front of the moved counts is zeroed up to the shift", at(ax.M, S.Pos()), "zeroing bound = shift of the copy ("+exprStr(S)+")",
-				"slots between the zeroed prefix and the moved counts keep what an earlier down-scale left in the spare capacity (bucket counts sum to more than Count): "+bad)
-		}
-		if len(grows) < 2 {
-			c.Undecided("R8", "aggregate|(*expoBuckets).record|growth sites", at(ax.M, fn.Pos()), itoa(len(grows))+" in-capacity growth sites found, 2 confirmed by reading")
-		}
-	}
+	ruleExpoWindowZeroed(c, ax, "R8")
 
 	c.Rule("R7", "E4 role agreement", "in the exponential collect methods every statement that fills PositiveBucket reads posBuckets only and every statement that fills NegativeBucket reads negBuckets only", 2)
 	ruleSignRoles(c, ax, "R7")
@@ -1212,4 +1034,190 @@ func ruleRecycledPoints(c *Ctx, ax *PkgIndex, rule string) int {
 		}
 	}
 	return nLoops
+}
+
+// ruleExpoWindowZeroed: expoBuckets.record grows its window inside spare capacity; what down-scaling left behind len must be zeroed
+// before it is exposed, and on the prepend side the zeroing reaches the shift of the copy. Shared by C07.R8 and C08.R10 (a
+// cumulative point that is down-scaled and grows again would report counts its deltas never contained).
+func ruleExpoWindowZeroed(c *Ctx, ax *PkgIndex, rule string) {
+	info := ax.Pkg.TypesInfo
+	if fn := c.Fn(ax, rule, "(*expoBuckets).record"); fn != nil {
+		g := ax.FG(fn)
+		fCounts := lookupField(ax.Pkg, "expoBuckets", "counts")
+		isCounts := func(e ast.Expr) bool { return isField(info, e, fCounts) }
+		// growth inside capacity: counts = counts[:E] (no low bound) — everything else allocates zeroed memory
+		grows := g.Match(func(n ast.Node) bool {
+			r := assignRHS(n, isCounts)
+			if r == nil {
+				return false
+			}
+			se, ok := unparen(r).(*ast.SliceExpr)
+			return ok && isCounts(se.X) && se.Low == nil && se.High != nil
+		})
+		zeroes := toSet(g.Match(func(n ast.Node) bool {
+			switch s := n.(type) {
+			case *ast.AssignStmt:
+				if len(s.Lhs) == 1 && len(s.Rhs) == 1 {
+					if ie, ok := unparen(s.Lhs[0]).(*ast.IndexExpr); ok && isCounts(ie.X) && g.InCycle(g.NodeOf(s)) {
+						if v, isC := constInt(info, s.Rhs[0]); isC && v == 0 {
+							return true
+						}
+					}
+				}
+			case *ast.CallExpr:
+				if builtinName(info, s) == "clear" && len(s.Args) == 1 {
+					if se, ok := unparen(s.Args[0]).(*ast.SliceExpr); ok && isCounts(se.X) {
+						return true
+					}
+				}
+			}
+			return false
+		}))
+		for _, x := range grows {
+			// a zeroing construct (element stores of 0 in a loop, or clear of a sub-slice) can follow before the function returns
+			after, _ := g.Reach([]*GNode{x}, nil, nil)
+			has := false
+			for z := range zeroes {
+				if after[z] {
+					has = true
+				}
+			}
+			c.Check(has, rule, "aggregate|(*expoBuckets).record|window grown within capacity ("+exprStr(assignRHS(x.N, isCounts))+") is zeroed", at(ax.M, x.N.Pos()), "re-slice followed by a zeroing loop/clear",
+				"the window is re-sliced into spare capacity without zeroing the exposed slots: counts left behind by an earlier down-scale reappear (bucket counts sum to more than Count)")
+		}
+		// extent of the zeroing on the prepend side: the old counts are moved up by S (copy into counts[S:…]); whatever zeroes the
+		// gap must run up to that same S — a smaller bound (the old length, a min of the two) leaves slots of the spare capacity
+		// between the old length and S as they were
+		sameLin := func(a, b ast.Expr) bool {
+			expand := func(e ast.Expr) ast.Expr {
+				if id, ok := unparen(e).(*ast.Ident); ok {
+					if d := g.LocalDef(info.Uses[id]); d != nil {
+						if _, isCall := unparen(d).(*ast.CallExpr); isCall || true {
+							ta, ka := linearForm(info, d)
+							if len(ta) > 0 || ka != 0 {
+								return d
+							}
+						}
+					}
+				}
+				return e
+			}
+			eq := func(x, y ast.Expr) bool {
+				tx, kx := linearForm(info, x)
+				ty, ky := linearForm(info, y)
+				if kx != ky || len(tx) != len(ty) {
+					return false
+				}
+				for k, v := range tx {
+					if ty[k] != v {
+						return false
+					}
+				}
+				return true
+			}
+			return eq(a, b) || eq(expand(a), expand(b)) || eq(expand(a), b) || eq(a, expand(b))
+		}
+		var shiftLow []ast.Expr
+		inspectNoLit(fn.Body(), func(n ast.Node) bool {
+			if call, ok := n.(*ast.CallExpr); ok && builtinName(info, call) == "copy" && len(call.Args) == 2 {
+				if se, ok := unparen(call.Args[0]).(*ast.SliceExpr); ok && isCounts(se.X) && se.Low != nil {
+					if v, isC := constInt(info, se.Low); !isC || v != 0 {
+						shiftLow = append(shiftLow, se.Low)
+					}
+				}
+			}
+			return true
+		})
+		for _, S := range shiftLow {
+			// zeroing constructs in the same block as the copy
+			var blk *ast.BlockStmt
+			ast.Inspect(fn.Body(), func(n ast.Node) bool {
+				switch b := n.(type) {
+				case *ast.BlockStmt:
+					for _, st := range b.List {
+						if containsNoLit(st, S) {
+							if _, nested := st.(*ast.BlockStmt); !nested {
+								blk = b
+							}
+						}
+					}
+				case *ast.CaseClause:
+					for _, st := range b.Body {
+						if containsNoLit(st, S) {
+							blk = &ast.BlockStmt{List: b.Body}
+						}
+					}
+				}
+				return true
+			})
+			if blk == nil {
+				continue
+			}
+			nz, bad := 0, ""
+			for _, st := range blk.List {
+				switch x := st.(type) {
+				case *ast.ForStmt:
+					// for i := k; i < U; i++ { counts[i] = 0 }
+					zeroing := false
+					inspectNoLit(x.Body, func(n ast.Node) bool {
+						if as, ok := n.(*ast.AssignStmt); ok && len(as.Lhs) == 1 && len(as.Rhs) == 1 {
+							if ie, ok := unparen(as.Lhs[0]).(*ast.IndexExpr); ok && isCounts(ie.X) {
+								if v, isC := constInt(info, as.Rhs[0]); isC && v == 0 {
+									zeroing = true
+								}
+							}
+						}
+						return true
+					})
+					if !zeroing {
+						continue
+					}
+					nz++
+					be, ok := unparen(x.Cond).(*ast.BinaryExpr)
+					if !ok {
+						bad = "loop condition " + exprStr(x.Cond)
+						continue
+					}
+					l, op, r, good := cmpNorm(be, 1)
+					_ = l
+					switch {
+					case good && op == token.LSS && sameLin(r, S):
+					case good && op == token.LEQ && sameLin(&ast.BinaryExpr{X: r, Op: token.ADD, Y: &ast.BasicLit{Kind: token.INT, Value: "1"}}, S):
+					default:
+						bad = "the zeroing loop runs while " + exprStr(x.Cond) + ", the counts were moved up by " + exprStr(S)
+					}
+				case *ast.ExprStmt:
+					call, ok := x.X.(*ast.CallExpr)
+					if !ok || builtinName(info, call) != "clear" || len(call.Args) != 1 {
+						continue
+					}
+					se, ok := unparen(call.Args[0]).(*ast.SliceExpr)
+					if !ok || !isCounts(se.X) {
+						continue
+					}
+					nz++
+					if se.Low != nil {
+						if v, isC := constInt(info, se.Low); !isC || v > 1 {
+							bad = "clear starts at " + exprStr(se.Low)
+						}
+					}
+					if se.High == nil || !sameLin(se.High, S) {
+						hi := "the end"
+						if se.High != nil {
+							hi = exprStr(se.High)
+						}
+						bad = "clear runs up to " + hi + ", the counts were moved up by " + exprStr(S)
+					}
+				}
+			}
+			if nz == 0 {
+				continue // reported by the obligation above
+			}
+			c.Check(bad == "", rule, "aggregate|(*expoBuckets).record|gap in front of the moved counts is zeroed up to the shift", at(ax.M, S.Pos()), "zeroing bound = shift of the copy ("+exprStr(S)+")",
+				"slots between the zeroed prefix and the moved counts keep what an earlier down-scale left in the spare capacity (bucket counts sum to more than Count): "+bad)
+		}
+		if len(grows) < 2 {
+			c.Undecided(rule, "aggregate|(*expoBuckets).record|growth sites", at(ax.M, fn.Pos()), itoa(len(grows))+" in-capacity growth sites found, 2 confirmed by reading")
+		}
+	}
 }
